@@ -182,6 +182,20 @@ class Repo:
         base = os.path.join(self.root, PKG)
         if not os.path.isdir(base):
             raise AnalysisError(f"package directory {base} not found")
+        # private function / method names defined more than once anywhere in the package: a method helper that some class
+        # may override is not inlined into callers reached through `self` (nqsa/normalise.py)
+        import re as _re
+        defs_seen: Dict[str, int] = {}
+        for dirpath, dirnames, filenames in os.walk(base):
+            for fn in filenames:
+                if fn.endswith(".py"):
+                    try:
+                        with open(os.path.join(dirpath, fn), "r", encoding="utf-8") as fh:
+                            for nm in _re.findall(r"^\s*(?:async\s+)?def\s+(_[A-Za-z0-9_]*)\s*\(", fh.read(), flags=_re.M):
+                                defs_seen[nm] = defs_seen.get(nm, 0) + 1
+                    except (UnicodeDecodeError, OSError):
+                        pass
+        multi = tuple(sorted(k for k, v in defs_seen.items() if v > 1))
         for dirpath, dirnames, filenames in os.walk(base):
             dirnames[:] = sorted(d for d in dirnames if d != "__pycache__")
             for fn in sorted(filenames):
@@ -200,7 +214,7 @@ class Repo:
                     self.parse_errors.append(f"{path}: {e}")
                     continue
                 # parsed + normalised trees are cached per process by content (several properties are evaluated on one tree)
-                key = (name, hash(source), bool(os.environ.get("NQSA_NO_NORMALISE")))
+                key = (name, hash(source), bool(os.environ.get("NQSA_NO_NORMALISE")), hash(multi))
                 blob = _TREE_CACHE.get(key)
                 if blob is not None:
                     tree = pickle.loads(blob)
@@ -213,7 +227,7 @@ class Repo:
                     if not os.environ.get("NQSA_NO_NORMALISE") and not name.startswith(PKG + ".examples"):
                         from . import normalise
                         try:
-                            tree = normalise.normalise_module(name, tree)
+                            tree = normalise.normalise_module(name, tree, frozenset(multi))
                         except RecursionError as e:  # pragma: no cover - defensive
                             self.parse_errors.append(f"{path}: normalisation failed: {e}")
                     try:
